@@ -5,7 +5,7 @@
    (vharness `ed` vs the extracted model) and the impl-side oracle vplib/edoracles.c07. *)
 From Coq Require Import NArith List Bool Arith Lia.
 From LC Require Import Base.Lib Gen.Editor_gen Model.Syllable Model.Composition Model.Conversion Model.Editor Model.EditorRun
-     Model.EdInst Proofs.CompositionProofs Proofs.Paging Proofs.EditorInv Proofs.EditorSelect Proofs.EditorWitness Proofs.EdInstProofs.
+     Model.EdInst Proofs.CompositionProofs Proofs.ConversionProofs Proofs.Paging Proofs.BreakPoints Proofs.EditorInv Proofs.EditorSelect Proofs.EditorWitness Proofs.EdInstProofs.
 Import ListNotations.
 Open Scope nat_scope.
 
@@ -74,7 +74,29 @@ Theorem C07_range_inside_current_buffer_every_history : forall ops (e e' : edito
 Proof.
   intros ops e e' pg act p I H Hst.
   pose proof (run_inv dops sops conv dict_ok ok_lookup ok_add ok_update ok_remove alt_stable ops e e' I H) as [_ Ist].
-  rewrite Hst in Ist. destruct Ist as (((Hlt & Hle) & Hcom) & _). unfold ce_len. rewrite <- Hcom. auto.
+  rewrite Hst in Ist. destruct Ist as (([Hlt Hle _] & Hcom) & _). unfold ce_len. rewrite <- Hcom. auto.
+Qed.
+
+(* ... it covers syllables only (so "the highlighted syllables" are exactly the symbols of the range and the
+   key that is looked up has one syllable per symbol), and the position the list was opened at is a syllable *)
+Theorem C07_range_covers_syllables_only_every_history : forall ops (e e' : editor D SY) pg act p,
+  Inv dops sops dict_ok e -> run dops sops conv e ops = Ok e' -> st e' = Selecting pg act (SelPhrase p) ->
+  (forall k, ps_begin p <= k < ps_end p -> exists s, nth_error (symbols (inner (com (sh e')))) k = Some (SymSyl s)) /\
+  length (range_key p) = ps_end p - ps_begin p.
+Proof.
+  intros ops e e' pg act p I H Hst.
+  pose proof (run_inv dops sops conv dict_ok ok_lookup ok_add ok_update ok_remove alt_stable ops e e' I H) as [_ Ist].
+  rewrite Hst in Ist. destruct Ist as (([Hlt Hle [Hsyl _ _]] & Hcom) & _). split.
+  - intros k Hk. rewrite <- Hcom. exact (Hsyl k Hk).
+  - unfold range_key. rewrite syl_prefix_all.
+    + apply slice_length. exact Hle.
+    + apply not_true_is_false. intros Hex. apply existsb_exists in Hex as (x & Hin & Hx).
+      apply In_nth_error in Hin as (j & Hj). unfold slice in Hj.
+      assert (j < ps_end p - ps_begin p).
+      { assert (j < length (firstn (ps_end p - ps_begin p) (skipn (ps_begin p) (symbols (ps_com p))))) by (apply nth_error_Some; congruence).
+        rewrite firstn_length in H0. lia. }
+      rewrite Paging.nth_error_firstn_lt in Hj by assumption. rewrite nth_error_skipn_add in Hj.
+      destruct (Hsyl (ps_begin p + j) ltac:(lia)) as (sy & Hsy). rewrite Hsy in Hj. inversion Hj; subst. discriminate.
 Qed.
 
 (* for a phrase range the list is the (layered) dictionary's answer for exactly the highlighted
@@ -130,6 +152,7 @@ End C07.
 Print Assumptions C07_total_page.
 Print Assumptions C07_page_index_below_page_count_every_history.
 Print Assumptions C07_range_inside_current_buffer_every_history.
+Print Assumptions C07_range_covers_syllables_only_every_history.
 Print Assumptions C07_phrase_list_is_the_dictionary_lookup.
 Print Assumptions C07_choosing_n_yields_item_n.
 Print Assumptions C07_selection_key_is_page_relative.
